@@ -242,6 +242,27 @@ def temporaries_are_generated_names():
     return guarded("temporaries", run)
 
 
+def initializer_per_array():
+    """with initialize_vars a DIM statement clears each array it declares - its own identifier, its own bounds - however many arrays of
+    one shape it lists"""
+    def run():
+        from coco.b09.compiler import convert
+        res = []
+        for src, want in {"DIM A(5),B(5),C$(5),D$(5)": {"arr_A": "5", "arr_B": "5", "arr_C$": "5", "arr_D$": "5"}, "DIM E(2,3),F(2,3),G(3,2)": {"arr_E": "2,3", "arr_F": "2,3", "arr_G": "3,2"},
+                          "DIM AB(4),AC(4),A(4),AB$(4)": {"arr_AB": "4", "arr_AC": "4", "arr_A": "4", "arr_AB$": "4"}, "DIM A(1):DIM B(1):DIM A$(1)": {"arr_A": "1", "arr_B": "1", "arr_A$": "1"}}.items():
+            text = convert("10 %s\n" % src, add_standard_prefix=False, initialize_vars=True)
+            got = {}
+            for line in text.split("\n"):
+                m = re.search(r"(arr_[A-Z][A-Z0-9]?\$?)\((tmp_\d+(?:, tmp_\d+)*)\) := ", line)
+                if m:
+                    bounds = re.findall(r"FOR tmp_\d+ = 0 TO (\S+)", line)
+                    got.setdefault(m.group(1), []).append(",".join(bounds))
+            ok = {k: [v] for k, v in want.items()} == got
+            res.append(ob("initializer/arrays/%s" % src, ok, {k: [v] for k, v in want.items()}, got, text))
+        return res
+    return guarded("initializer/arrays", run)
+
+
 def initializer_positions():
     """with initialize_vars every user scalar that the program can read gets its Color BASIC start value (0 / "") in the prologue, in
     whatever position it occurs - a FOR control variable too: a jump can reach a use before the FOR ran - and nothing else does:
@@ -374,4 +395,6 @@ def config_names_c09():
 
 
 def obligations():
-    return truncation() + kinds_disjoint() + generated_identifiers() + variable_positions() + positions_through_rules() + reserved_values() + initializer_skips_generated() + initializer_kinds() + initializer_positions() + temporaries_are_generated_names() + config_names_c09() + kinds_in_declarations() + next_names()
+    from tx.p_c05 import share
+    from tx import p_c10
+    return share("declared-kinds/", [o for o in p_c10.positions() if "same name" in o["id"]]) + truncation() + kinds_disjoint() + generated_identifiers() + variable_positions() + positions_through_rules() + reserved_values() + initializer_skips_generated() + initializer_kinds() + initializer_per_array() + initializer_positions() + temporaries_are_generated_names() + config_names_c09() + kinds_in_declarations() + next_names()
